@@ -48,13 +48,13 @@ setp('C04',
 setp('C06',
  "Unbounded Verus proof of the representation invariants: AssemblyWindow alloc == sum of slot allocations <= max_alloc == ceil(limit/1448)*1448, over-limit packets become data-less Closed(0) placeholders, clear() subtracts exactly the slot's value, lemma held-bytes <= max_alloc; PacketReceiver array lengths never change; pending acknowledgement groups <= 256 (D12); sender: alloc == sum of slot alloc_size <= max_alloc, emit_packet returns None rather than exceed window or allocation, alloc_size == fragment-rounded size (sender half of the agreement lemma); handshake mapping tx_alloc_limit == peer's max_receive_alloc on both sides and sender max_alloc == that limit rounded up.",
  "Constructors trusted (T9).",
- nd=["real heap bytes (allocator overhead, Vec capacity)", "agreement lemma sender alloc_size == receiver packet_alloc_size is stated per side, not as one lemma over both"],
+ nd=["real heap bytes (allocator overhead, Vec capacity)", "the two-endpoint composition (receiver's sum over its window <= sender's alloc): the agreement lemma lemma_c06_alloc_agreement shows both sides book the same amount per packet and round the limit identically; the window correspondence itself is the C01 paper argument"],
  technique=T, thorough=['native:C06'])
 
 setp('C07',
- "Unbounded Verus proof on both endpoints: client — Connect is appended exactly when Pending and the SYN-ACK echoes the local nonce (and the advertised receive allocation covers max_packet_size, D17: else Error(Config)), a mismatching / duplicate / late SYN-ACK or error frame changes nothing, the half-connection Config built at that site equals the nonce/limit mapping; server — the Connect push and the Active assignment are guarded by 'observed Pending and nonce_ack == the nonce generated at SYN time' (cell_const), SYN handling mirrors Version / ServerFull / Config refusals in order with the matching reply value, an already tracked address changes nothing and sends nothing, exactly one Pending insert per accepted SYN, Config mirror of the client's.",
+ "Unbounded Verus proof on both endpoints: client — Connect is appended exactly when Pending and the SYN-ACK echoes the local nonce (and the advertised receive allocation covers max_packet_size, D17: else Error(Config)), a mismatching / duplicate / late SYN-ACK or error frame changes nothing, the half-connection Config built at that site equals the nonce/limit mapping; server — the Connect push and the Active assignment are guarded by 'observed Pending and nonce_ack == the nonce generated at SYN time' (cell_const), SYN handling mirrors Version / ServerFull / Config refusals in order with the matching reply value, an already tracked address changes nothing and sends nothing, exactly one Pending insert per accepted SYN, Config == server_hc_config_for(..) at the site; pure lemma lemma_c07_agreement: for any nonces and advertised limits the two mappings agree crosswise (frame and packet base ids, windows, alloc limits, bandwidth bounded by the peer's advertisement and the local ceiling).",
  "Server state lives behind Rc<RefCell<..>>: facts are site assertions over the value observed at the borrow (DESIGN 2.1).",
- nd=["the two-sided agreement lemma (server.tx_frame_base == client.rx_frame_base etc.) is implied by the two site assertions but not stated as one lemma", "'queued sends forwarded in order' (no send log)"], technique=T)
+ nd=["'queued sends forwarded in order' (no send log)"], technique=T)
 
 setp('C08',
  "Unbounded Verus proof: client — every state/event method ensures step_ok (events_out only grows; appended events and state change satisfy wf_step over the real State enum), whole step() emits a legal piece of Connect? Receive* (Disconnect|Error)?, pure trace theorems by induction over any sequence of steps; PacketSink has a relational contract (rel reflexive/transitive, send ensures rel), PacketReceiver::receive and HalfConnection::receive are PROVED to establish it, so 'only Receive events' during a drain is proved, not assumed; server — the same relation as site assertions at all 11 event pushes and 10 state assignments (every such site must be claimed: an unclaimed new site fails `unexpected-emission-site`), removal from the map only after Fin, every Fin assignment is followed by the removal (ghost set).",
